@@ -13,13 +13,13 @@ def run(ctx):
                 "1..200, 2-5 members split at arbitrary byte offsets). non-trivial = scenarios with at least one record")
     ctx.trusted += ["fixture serialisation (harness/src/containers.rs: standard FASTA/FASTQ/gzip)", "bio's line-level contract is assumed by the model and confirmed by the replay",
                     "TLC, Json/IOUtils community modules"]
-    N = 3 if ctx.thorough() else 2
-    r = vlib.tlc("MCReader", env={"VN": N}, rundir=ctx.rundir, coverage=True, timeout=3400)
-    ctx.add_mc("mc Reader: all scenarios with <= %d records" % N, r)
-    if r.violated:
-        st = vlib.parse_state(r.cex[-1]) if r.cex else {}
-        ctx.violation("mc_reader", {"scenario": st.get("sc"), "invariant": r.violated}, {"state": st})
-        return
+    for N in ((2, 3) if ctx.thorough() else (2,)):
+        r = vlib.tlc("MCReader", env={"VN": N}, rundir=ctx.rundir, coverage=True, timeout=3400)
+        ctx.add_mc("mc Reader: all scenarios with <= %d records%s" % (N, " (reduced record set)" if N > 2 else ""), r)
+        if r.violated:
+            st = vlib.parse_state(r.cex[-1]) if r.cex else {}
+            ctx.violation("mc_reader", {"scenario": st.get("sc"), "invariant": r.violated}, {"state": st})
+            return
     r = vlib.tlc("MCReader", cfg="ScenReader", env={"VN": 2}, workers=1, rundir=ctx.rundir, timeout=3000)
     ctx.add_mc("scenario export (<= 2 records)", r)
     path = ctx.path("scen.txt")
